@@ -31,10 +31,43 @@ def repo_path():
     return os.environ.get("VERIF_REPO", "/repo")
 
 
+GOCACHE_CAP = 6 << 30
+
+
+def _private_gocache():
+    """Every run compiles freshly generated Go packages, and the Go build cache keeps each of them for days (this
+    development filled 100 GB that way).  The checks therefore use a build cache of their own under work/ and empty it
+    when it has grown past GOCACHE_CAP; the user's cache is left alone.  VERIF_GOCACHE=default opts out."""
+    if os.environ.get("VERIF_GOCACHE") == "default":
+        return None
+    d = os.environ.get("VERIF_GOCACHE") or os.path.join(VERIF, "work", "gocache")
+    os.makedirs(d, exist_ok=True)
+    stamp = os.path.join(d, ".size_checked")
+    try:
+        if not os.path.exists(stamp) or time.time() - os.path.getmtime(stamp) > 600:
+            open(stamp, "w").write("")
+            total = 0
+            for root, _dirs, files in os.walk(d):
+                for f in files:
+                    try:
+                        total += os.path.getsize(os.path.join(root, f))
+                    except OSError:
+                        pass
+            if total > GOCACHE_CAP:
+                shutil.rmtree(d, ignore_errors=True)
+                os.makedirs(d, exist_ok=True)
+    except OSError:
+        pass
+    return d
+
+
 def go_env():
     e = dict(os.environ)
     e.update({"GOFLAGS": "-mod=mod", "GOPROXY": "off", "GOSUMDB": "off", "GOTOOLCHAIN": "local",
               "CGO_ENABLED": e.get("CGO_ENABLED", "0")})
+    gc = _private_gocache()
+    if gc:
+        e["GOCACHE"] = gc
     return e
 
 
